@@ -317,6 +317,33 @@ func healthyMissing(in *In, o *Obs) bool {
 		if (i < in.Pos || !failed) && !seen(o.Fault.Log, names[i], "fault") {
 			return true
 		}
+		// invoked but its answer did not make it in time
+		if o.Next.Res.Err == "" && !contributes(in.Ev, names[i], "next.", o.Next.Res.Items) {
+			return true
+		}
+		if !failed && !contributes(in.Ev, names[i], "fault", o.Fault.Res.Items) {
+			return true
+		}
+	}
+	return false
+}
+
+// contributes: the reply carries what plugin `name` answers to request `req` (true for
+// request kinds without a reply body).
+func contributes(ev int, name, req string, items []string) bool {
+	var want string
+	switch ev {
+	case rt.EvCreate:
+		want = name + "=" + req
+	case rt.EvUpdate, rt.EvStop:
+		want = fmt.Sprintf("%s/%s=%d", req, name, rt.MemFor(name, req))
+	default:
+		return true
+	}
+	for _, it := range items {
+		if it == want {
+			return true
+		}
 	}
 	return false
 }
@@ -334,7 +361,7 @@ func noisyMulti(in *In, o *Obs) bool {
 		for _, l := range o.Next.Log {
 			ok = ok || (l.P == names[i] && l.R == "next.")
 		}
-		if !ok {
+		if !ok || (o.Next.Res.Err == "" && !contributes(in.Ev, names[i], "next.", o.Next.Res.Items)) {
 			return true
 		}
 	}
